@@ -107,6 +107,8 @@ type Device struct {
 	// sync script replayed by Sync()
 	SyncScript []*target.SyncUpdate
 	SyncDone   chan struct{}
+	// SyncFeed, if non-nil, replaces SyncScript: the harness feeds messages one by one
+	SyncFeed chan *target.SyncUpdate
 }
 
 func NewDevice(initial Conf) *Device {
@@ -227,6 +229,23 @@ func (d *Device) LastRecord() *SetRecord {
 }
 
 func (d *Device) Sync(ctx context.Context, _ *config.Sync, syncCh chan *target.SyncUpdate) {
+	if d.SyncFeed != nil {
+		for {
+			select {
+			case <-ctx.Done():
+				return
+			case su, ok := <-d.SyncFeed:
+				if !ok {
+					return
+				}
+				select {
+				case <-ctx.Done():
+					return
+				case syncCh <- su:
+				}
+			}
+		}
+	}
 	for _, su := range d.SyncScript {
 		select {
 		case <-ctx.Done():
